@@ -458,12 +458,21 @@ def _bfs(args):
 
 
 def run(ctx):
-    d = 3 if ctx.quick else 4
+    d = 4 if ctx.quick else 5
     plans = [("kde_gauss", d + 1, 0), ("kde_histogram", d + 1, 0),
              ("kde_multivariate", d, 0), ("downsample_grid", d + 1, 0),
              ("cache-all", d, 0), ("hashfile", d + 1, 1),
              ("contour", d + 2, 1)]
-    res = par.pmap(_bfs, [(w, dep, dev, ctx.scratch) for w, dep, dev in plans])
+    # cheap plans run side by side; the large call-sequence spaces are
+    # explored one after the other with the BFS itself fanned out
+    small = [pl for pl in plans if pl[0] in ("hashfile", "contour")]
+    res = par.pmap(_bfs, [(w, dep, dev, ctx.scratch) for w, dep, dev in small])
+    for w, dep, dev in plans:
+        if (w, dep, dev) in small:
+            continue
+        drv = CacheDriver() if w == "cache-all" else CacheDriver(subset=(w,))
+        stats, vs = explore.bfs(drv, max_depth=dep, max_dev=dev)
+        res.append((w, stats, vs))
     parts, viols = [], []
     for which, stats, vs in res:
         parts.append((which, stats))
